@@ -105,6 +105,11 @@ def analyse(obs: Obs, prog):
     obs.add({"C13", "C01", "C17"}, "TRACE-CHOICES", "SwitchTrace.get_choices", okc, derived=r.ret, expected="ChoiceMap.switch(self.get_idx(), [tr.get_choices() for tr in self.subtraces])", where=W(ST, "get_choices"))
     r = ev.eval_fn(ST.methods["get_inner_trace"], ST.module, ST)
     oki = r.ret == ("call", ("attr", ("index", subs, gi), "get_inner_trace"), (P("address"),), ())
+    # ... but `self.subtraces` is a Python LIST: indexing it needs a concrete index.  The trace's index is an array whenever the switch runs under vmap / scan /
+    # jit (get_choices / get_score / get_retval of the same trace select with tree_choose and work there): get_subtrace through such a trace raises
+    list_indexed = is_mcall(r.ret, "get_inner_trace") and is_t(r.ret[1][1], "index") and r.ret[1][1][1] == ("attr", SELF, "subtraces") and not mentions_any(r.ret, lambda x: is_t(x, "choose") or is_call(x, "tree_choose") or is_call(x, "multi_switch"))
+    obs.add({"C34"}, "SUBTRACE", "SwitchTrace.get_inner_trace/traced-index", not list_indexed, construct="Python list of sub-traces indexed by the trace's index",
+            derived="self.subtraces[self.get_idx()]: TypeError / TracerIntegerConversionError for a switch trace under vmap, scan or jit", expected="a data-parallel selection of the branch's sub-trace (as get_choices / get_score do), list indexing only for a concrete index", where=W(ST, "get_inner_trace"))
     obs.add({"C34", "C13"}, "SUBTRACE", "SwitchTrace.get_inner_trace", oki, derived=r.ret, expected="self.subtraces[self.get_idx()].get_inner_trace(address)", where=W(ST, "get_inner_trace"))
     for acc, fld in (("get_args", "args"), ("get_retval", "retval"), ("get_score", "score")):
         r = ev.eval_fn(ST.methods[acc], ST.module, ST)
